@@ -131,8 +131,26 @@ def macro_definition(rng):
     return "{%s} = '%s\n%s'" % (name, lines[0], '\n'.join(lines[1:]))
 
 
+_DEFAULT_PATTERNS = None
+
+
+def default_patterns():
+    """pattern texts of the built-in replacement definitions of the implementation under test"""
+    global _DEFAULT_PATTERNS
+    if _DEFAULT_PATTERNS is None:
+        try:
+            from rimu import replacements
+            _DEFAULT_PATTERNS = [d.match.pattern for d in replacements.DEFAULT_DEFS if "'" not in d.match.pattern and '\n' not in d.match.pattern]
+        except Exception:
+            _DEFAULT_PATTERNS = []
+    return _DEFAULT_PATTERNS or ['x']
+
+
 def definition_line(rng):
     k = rng.randrange(6)
+    if k == 2 and rng.random() < 0.3:
+        # a built-in replacement redefined under its own pattern text (updated in place, not appended)
+        return "/%s/%s = '%s'" % (rng.choice(default_patterns()), rng.choice(['', 'i']), rng.choice(['[$1]', 'R', '', '<b>$1</b>']))
     if k == 0:
         return macro_definition(rng)
     if k == 1:
@@ -289,7 +307,7 @@ SAFE_MODES = list(range(16))
 COMBO_DEFS = [
     "{u} = 'h style='", "{u} = 'x\" y=\"z'", "{u} = 'a b'", "{u} = ''", "{u?} = 'kept'", "{q} = '$$1'", "{q} = 'pre $$1 post $2:dflt$'",
     "{t} = '<b>$1'", "{t} = '# $1\n\npara $2'", "{t} = 'one\ntwo\n'", "{t} = '\\{u}'", "{--header-ids} = 'true'", "{--} = 'x'",
-    "~ = '<u>|</u>'", "= = '<i class=\"{u}\">||</i>'", "_ = '<em class=\"e\">|</em>'", "`` = '<kbd>||</kbd>'",
+    "~ = '<u>|</u>'", "%% = '<ins>|</ins>'", "= = '<i class=\"{u}\">||</i>'", "_ = '<em class=\"e\">|</em>'", "`` = '<kbd>||</kbd>'",
     "/zz/ = '[$1]'", "/(z+)/i = '<s>$$1</s>$1'", "/\\bteh\\b/ = 'the'", "/(a)|(b)/ = '$2$1'",
     "|code| = '<pre class=\"k\">|</pre> +macros'", "|paragraph| = '<p style=\"a:b\">|</p>'", "|division| = '<section>|</section> -container +spans'",
     "|quote| = '+macros'", "|indented| = '-specials'", "|html| = '+skip'", "|comment| = '-skip'",
@@ -302,7 +320,7 @@ COMBO_CONSUMERS = [
     'term:: def {u}\n\n  ``\n  code {u}\n  ``', '``\ncode {u} *e* <b>\n``', '`` js\ncode\n``', '  indented {u} *e*', '""\nquote {u}\n\n- li\n""',
     '..\ndiv {u} zz\n\n.k9\ninner para\n..', '.. cls\n{t|a|b}\n..', '<div class="c" style="s:t" id="own">{u}</div>', '<p>raw {q|*x*}</p>\n',
     '<image:{u}|alt {u}>', '<image:pic.png>', '<<#a{u}>>', '/*\ncomment {u}\n*/', '// line', '{t|x|y}', '{t|x}\nnext line', '{undefined|x}',
-    '> quote para {u}', '>>\nq2\n>>', '[cap {u} http://u.v/ zz](http://h/{u})', '<http://h/|cap *e*> ~w~ =v=', '\\{u} \\*lit* \\<b>',
+    '> quote para {u}', '>>\nq2\n>>', '[cap {u} http://u.v/ zz](http://h/{u})', '<http://h/|cap *e*> ~w~ =v= %%p%%', '\\{u} \\*lit* \\<b>',
     '<joe@foo.com|{u}> ![a {u}](i.png) ^[c](http://x/)', '..\n..', '``\n``', 'a \\\nb', '*a _b* c_ `d*`',
 ]
 
